@@ -96,14 +96,28 @@ func c20AccountLookup(c *eng.Ctx, r *eng.Report) {
 		return
 	}
 	n := 0
+	// the walk of one registry may stand in a private helper that is called once per registry
+	_, helpers := c20RegistryKinds(fn, ".minerIterator")
+	var sites []eng.Site
+	weight := map[ssa.Instruction]int{}
 	for _, s := range eng.Sites(fn) {
+		sites = append(sites, s)
+		weight[s.Instr] = 1
+	}
+	for h, k := range helpers {
+		for _, s := range eng.Sites(h) {
+			sites = append(sites, s)
+			weight[s.Instr] = k
+		}
+	}
+	for _, s := range sites {
 		if s.Name() != "bytes.Compare" && s.Name() != "bytes.Equal" {
 			continue
 		}
 		if !strings.Contains(eng.Desc(s.Common().Args[0])+eng.Desc(s.Common().Args[1]), ".Account") {
 			continue
 		}
-		n++
+		n += weight[s.Instr]
 		var extra []string
 		for _, cd := range eng.CondsAt(s.Instr) {
 			d := eng.Desc(cd.V)
@@ -213,14 +227,7 @@ func c20Lock(c *eng.Ctx, r *eng.Report) {
 		if !r.Anchor(fn != nil, rule, spec.fn) {
 			continue
 		}
-		kinds := map[string]bool{}
-		for _, call := range callsNamed(fn, spec.callee) {
-			for _, a := range call.Call.Args {
-				if k, ok := eng.ConstInt(a); ok {
-					kinds[fmt.Sprint(k)] = true
-				}
-			}
-		}
+		kinds, _ := c20RegistryKinds(fn, spec.callee)
 		r.Check(len(kinds) >= 2, rule, "both-registries:"+spec.fn, c.Pos(fn.Pos()), "consults both the validator and the proposer registry", spec.fn+" consults only one miner registry: an account (or id) can hold one miner of each type")
 	}
 }
@@ -966,4 +973,81 @@ func c20MinerFieldDepths(fn *ssa.Function, inline int) map[string]int {
 		}
 	}
 	return got
+}
+
+// c20RegistryKinds: the registry constants that reach an argument of fn's calls
+// of callee — written at the call, or handed to a private helper of the package
+// that passes its own parameter on (then also: helper → number of registries it
+// is run for). A value ranged over a slice literal stands for the literal's
+// constant elements.
+func c20RegistryKinds(fn *ssa.Function, callee string) (map[string]bool, map[*ssa.Function]int) {
+	kinds := map[string]bool{}
+	helpers := map[*ssa.Function]int{}
+	constsOf := func(v ssa.Value) []int64 {
+		if k, ok := eng.ConstInt(v); ok {
+			return []int64{k}
+		}
+		ld, ok := v.(*ssa.UnOp)
+		if !ok || ld.Op != token.MUL {
+			return nil
+		}
+		ia, ok := ld.X.(*ssa.IndexAddr)
+		if !ok {
+			return nil
+		}
+		base := ia.X
+		if sl, isSl := base.(*ssa.Slice); isSl {
+			base = sl.X
+		}
+		al, ok := base.(*ssa.Alloc)
+		if !ok {
+			return nil
+		}
+		var out []int64
+		for _, ref := range *al.Referrers() {
+			if eia, isIA := ref.(*ssa.IndexAddr); isIA && eia != ia {
+				for _, r2 := range *eia.Referrers() {
+					if st, isSt := r2.(*ssa.Store); isSt {
+						if k, isK := eng.ConstInt(st.Val); isK {
+							out = append(out, k)
+						}
+					}
+				}
+			}
+		}
+		return out
+	}
+	for _, call := range callsNamed(fn, callee) {
+		for _, a := range call.Call.Args {
+			for _, k := range constsOf(a) {
+				kinds[fmt.Sprint(k)] = true
+			}
+		}
+	}
+	for _, s := range eng.Sites(fn) {
+		h := s.Static()
+		if h == nil || h == fn || h.Pkg != fn.Pkg || h.Blocks == nil || token.IsExported(h.Name()) {
+			continue
+		}
+		perSite := 0 // registries this one call of the helper runs it for
+		for _, inner := range callsNamed(h, callee) {
+			for _, a := range inner.Call.Args {
+				for pi, q := range h.Params {
+					if a == ssa.Value(q) && pi < len(s.Common().Args) {
+						ks := constsOf(s.Common().Args[pi])
+						for _, k := range ks {
+							kinds[fmt.Sprint(k)] = true
+						}
+						if len(ks) > perSite {
+							perSite = len(ks)
+						}
+					}
+				}
+			}
+		}
+		if perSite > 0 {
+			helpers[h] += perSite
+		}
+	}
+	return kinds, helpers
 }
